@@ -619,7 +619,11 @@ var labelNameRe = regexp.MustCompile(`^[a-z][a-z0-9_]*$`)
 //	"benign": every mask is tame / [0] / rules-only (the README's kind of use)
 //	"hostile": at least one mask selects groups of an arbitrary expression in
 //	           ascending or arbitrary order
-func genCase(rng *rand.Rand, id int, class string, nEvents int) *testCase {
+//
+// aux is a second, independent stream used only by shapeMetrics (so that the
+// masks / events / field lists drawn from rng are the same with and without
+// that step); shape forces one cell of the metrics matrix, nil = random.
+func genCase(rng *rand.Rand, id int, class string, nEvents int, aux *rand.Rand, shape *metricsShape) *testCase {
 	tc := &testCase{ID: id, Class: class}
 	nm := 1 + rng.Intn(3)
 	var exprs []*rx
@@ -656,7 +660,7 @@ func genCase(rng *rand.Rand, id int, class string, nEvents int) *testCase {
 		avoid[tc.Config.MaskAppliedField] = true
 	}
 	if rng.Intn(3) == 0 {
-		tc.Config.AppliedMetricName = "c17_plugin_hits"
+		tc.Config.AppliedMetricName = strPtr("c17_plugin_hits")
 	}
 	for i := range tc.Config.Masks {
 		m := &tc.Config.Masks[i]
@@ -678,14 +682,7 @@ func genCase(rng *rand.Rand, id int, class string, nEvents int) *testCase {
 	}
 	// metric labels: a top-level key of the events (value after masking must be
 	// used); the key must be a valid metric label name
-	labelKey := func() []string {
-		t := tc.trees[rng.Intn(len(tc.trees))]
-		k := t.Keys[rng.Intn(len(t.Keys))]
-		if !labelNameRe.MatchString(k) {
-			return nil
-		}
-		return []string{k}
-	}
+	labelKey := func() []string { return pickLabelKey(rng, tc.trees) }
 	if rng.Intn(3) == 0 {
 		tc.Config.AppliedMetricLabels = labelKey()
 	}
@@ -726,5 +723,134 @@ func genCase(rng *rand.Rand, id int, class string, nEvents int) *testCase {
 			tc.Config.Masks[0].ProcessFields = pickPaths(rng, pool, 1+rng.Intn(2))
 		}
 	}
+	if aux != nil {
+		shapeMetrics(tc, aux, shape)
+	}
 	return tc
+}
+
+// pickLabelKey: a top-level key of one of the events, if it is a valid metric
+// label name (nil otherwise).
+func pickLabelKey(rng *rand.Rand, trees []*jnode) []string {
+	t := trees[rng.Intn(len(trees))]
+	k := t.Keys[rng.Intn(len(t.Keys))]
+	if !labelNameRe.MatchString(k) {
+		return nil
+	}
+	return []string{k}
+}
+
+// ---------- metrics matrix ----------
+
+// metricsShape is one cell of
+// applied_metric_name {absent, custom, explicit ""} x per-mask metric_name
+// {none, without labels, with metric_labels} x mask_applied_field {unset, set}.
+type metricsShape struct {
+	Plugin  string // default | custom | off
+	Mask    string // none | plain | labels
+	Applied bool   // mask_applied_field set
+}
+
+func (s metricsShape) String() string {
+	return fmt.Sprintf("plugin=%s|mask=%s|applied_field=%v", s.Plugin, s.Mask, s.Applied)
+}
+
+var metricsMatrix = func() []metricsShape {
+	var out []metricsShape
+	for _, p := range []string{"default", "custom", "off"} {
+		for _, m := range []string{"none", "plain", "labels"} {
+			for _, a := range []bool{false, true} {
+				out = append(out, metricsShape{p, m, a})
+			}
+		}
+	}
+	return out
+}()
+
+// shapeOf classifies a configuration into its cell of the matrix.
+func shapeOf(cfg *pluginCfg) metricsShape {
+	s := metricsShape{Plugin: cfg.pluginMetricKind(), Mask: "none", Applied: cfg.MaskAppliedField != ""}
+	for i := range cfg.Masks {
+		m := &cfg.Masks[i]
+		if m.MetricName == "" {
+			continue
+		}
+		if len(m.MetricLabels) > 0 {
+			s.Mask = "labels"
+		} else if s.Mask == "none" {
+			s.Mask = "plain"
+		}
+	}
+	return s
+}
+
+// shapeMetrics post-processes the metric / applied-mark part of a generated
+// configuration. Without a forced shape: a quarter of the cases get an
+// explicit empty applied_metric_name (plugin-level counter off), and most of
+// those get at least one mask with its own metric_name. With a forced shape
+// the configuration is moved into exactly that cell.
+func shapeMetrics(tc *testCase, aux *rand.Rand, shape *metricsShape) {
+	cfg := &tc.Config
+	giveMetric := func(i int, labels bool) {
+		m := &cfg.Masks[i]
+		if m.MetricName == "" {
+			m.MetricName = fmt.Sprintf("c17_mask_%d_hits", i)
+		}
+		m.MetricLabels = nil
+		if labels {
+			for try := 0; try < 8 && m.MetricLabels == nil; try++ {
+				m.MetricLabels = pickLabelKey(aux, tc.trees)
+			}
+			if m.MetricLabels == nil {
+				// no top-level key of these events is a valid label name: a label
+				// that no event carries (its value is always "not_set")
+				m.MetricLabels = []string{"nosuch_label"}
+			}
+		}
+	}
+	if shape == nil {
+		if aux.Intn(4) != 0 {
+			return
+		}
+		cfg.AppliedMetricName = strPtr("")
+		has := false
+		for i := range cfg.Masks {
+			has = has || cfg.Masks[i].MetricName != ""
+		}
+		if !has && aux.Intn(4) != 0 {
+			giveMetric(aux.Intn(len(cfg.Masks)), aux.Intn(2) == 0)
+		}
+		return
+	}
+	switch shape.Plugin {
+	case "default":
+		cfg.AppliedMetricName = nil
+	case "custom":
+		cfg.AppliedMetricName = strPtr("c17_plugin_hits")
+	default:
+		cfg.AppliedMetricName = strPtr("")
+	}
+	if shape.Applied {
+		if cfg.MaskAppliedField == "" {
+			cfg.MaskAppliedField = "mask_applied"
+			cfg.MaskAppliedValue = []string{"yes", "", "да \"q\""}[aux.Intn(3)]
+		}
+	} else {
+		cfg.MaskAppliedField, cfg.MaskAppliedValue = "", ""
+	}
+	if shape.Mask == "none" {
+		for i := range cfg.Masks {
+			cfg.Masks[i].MetricName, cfg.Masks[i].MetricLabels = "", nil
+		}
+		return
+	}
+	forced := aux.Intn(len(cfg.Masks))
+	for i := range cfg.Masks {
+		if i == forced || aux.Intn(2) == 0 {
+			// cell "labels": at least the forced mask carries a label, the others may
+			giveMetric(i, shape.Mask == "labels" && (i == forced || aux.Intn(2) == 0))
+		} else {
+			cfg.Masks[i].MetricName, cfg.Masks[i].MetricLabels = "", nil
+		}
+	}
 }
